@@ -893,11 +893,31 @@ func genC01(rng *rand.Rand) *tcase {
 	n := 1 + g.rng.Intn(25)
 	failing := g.chance(50)
 	k := 1 + g.rng.Intn(n)
+	g.bgMode = g.chance(45)
+	// a very long line (around bufio.Scanner's 64 KiB token limit), mostly with a failing line after it
+	longAt, longLen := 0, 0
+	if g.chance(5) {
+		if n < 3 {
+			n = 3 + g.rng.Intn(6)
+		}
+		longAt = 1 + g.rng.Intn(n-1)
+		longLen = longLengths[g.rng.Intn(len(longLengths))]
+		if g.chance(75) {
+			failing = true
+			k = longAt + 1 + g.rng.Intn(n-longAt)
+		} else if k == longAt {
+			failing = false
+		}
+	}
 	endAt, endKind := 0, ""
-	if g.chance(35) {
+	if g.chance(35) || (g.bgMode && g.chance(30)) {
 		endAt = 1 + g.rng.Intn(n)
 		endKind = g.pick([]string{"stop", "stop", "skip", "skip"})
-		if endAt == k && failing {
+		if g.bgMode && n > 2 { // leave room for background commands to be started first; mostly skip
+			endAt = 2 + g.rng.Intn(n-1)
+			endKind = g.pick([]string{"stop", "skip", "skip", "skip"})
+		}
+		if (endAt == k && failing) || endAt == longAt {
 			endAt = 0
 		}
 	}
@@ -912,19 +932,71 @@ func genC01(rng *rand.Rand) *tcase {
 		tags = append(tags, "setup-fail")
 		nontrivial = true
 	}
+	// bgEvent: tags what happens to outstanding background commands at a point where the script ends,
+	// waits or fails (the classes of DESIGN 6.7: a status against its line followed by wait / skip /
+	// stop / end / a failing line, with and without ContinueOnError)
+	bgEvent := func(ev string) {
+		if len(s.bgs) == 0 {
+			return
+		}
+		c := "-"
+		if g.fl.cont {
+			c = "cont"
+		}
+		kind := "as-demanded"
+		if s.pendingContradiction() {
+			kind = "AGAINST-LINE"
+		}
+		tags = append(tags, fmt.Sprintf("bg@%s:%s:%s", ev, kind, c))
+		if len(s.bgs) >= 2 && (s.bgs[0].contradicts(false) || (s.bgs[0].blocks && !s.bgs[0].neg)) {
+			tags = append(tags, "bg@"+ev+":two-or-more-first-against-line")
+		}
+		nontrivial = true
+	}
+	fails := func(i int, why string) {
+		recipe = append(recipe, fmt.Sprintf("line %d fails (%s)", i, why))
+		tags = append(tags, why)
+		if firstFail < 0 {
+			firstFail = i
+		}
+		failedYet = true
+		if !g.fl.cont {
+			alive = false
+			verdict = "fail"
+		}
+	}
 	run := func(i int, l gline, bad bool) {
 		switch {
+		case i == longAt:
 		case g.chance(15): // a trailing comment
 			l.text += g.pick([]string{" # note", " #", "\t# exists nothing"})
 		case g.chance(6): // blanks of all three kinds around the words
 			l.text = g.pick([]string{" ", "\t", "  "}) + l.text + g.pick([]string{" ", "\t", "\r", " \r"})
 		}
 		lines = append(lines, l.text)
-		if l.custom || strings.Contains(l.tag, "guard") || strings.Contains(l.tag, "neg") || bad {
+		if l.custom || strings.Contains(l.tag, "guard") || strings.Contains(l.tag, "neg") || strings.Contains(l.tag, "exec") || strings.Contains(l.tag, "-bg") || bad {
 			nontrivial = true
 		}
 		if !alive {
 			return
+		}
+		if bad {
+			switch {
+			case strings.HasPrefix(l.tag, "bad-wait"):
+				bgEvent("wait")
+			default:
+				bgEvent("failing-line")
+			}
+		} else if strings.HasPrefix(l.tag, "wait") {
+			bgEvent("wait")
+		}
+		if strings.HasPrefix(l.tag, "wait") || strings.HasPrefix(l.tag, "bad-wait") {
+			for _, b := range s.bgs {
+				if b.blocks && b.signalled {
+					tags = append(tags, "bg:kill-then-wait")
+					break
+				}
+			}
 		}
 		if l.apply != nil {
 			l.apply()
@@ -933,25 +1005,58 @@ func genC01(rng *rand.Rand) *tcase {
 			tags = append(tags, "line:"+l.tag)
 		}
 		if bad {
-			recipe = append(recipe, fmt.Sprintf("line %d fails (%s)", i, l.tag))
-			tags = append(tags, l.tag)
-			if firstFail < 0 {
-				firstFail = i
-			}
-			failedYet = true
-			if !g.fl.cont {
-				alive = false
-				verdict = "fail"
-			}
+			fails(i, l.tag)
 		}
 	}
 	for i := 1; i <= n; i++ {
 		switch {
+		case i == longAt:
+			var base gline
+			bad := failing && i == k
+			if bad {
+				base = g.badLine(0)
+			} else {
+				base = g.goodLine(0)
+			}
+			for base.tag == "bad-unterminated-quote" { // a comment after an open quote would be part of the word
+				base = g.badLine(0)
+			}
+			l, form := g.longLine(base, longLen)
+			if l.tag != base.tag { // the line was replaced by one of its own (comment line, long word)
+				bad = false
+				if failing && i == k {
+					failing = false
+				}
+			}
+			nontrivial = true
+			if alive {
+				tags = append(tags, fmt.Sprintf("long-line:%s:len=%d", form, len(l.text)))
+				if failing && k > i {
+					tags = append(tags, "long-line:failing-line-after-it")
+				}
+				recipe = append(recipe, fmt.Sprintf("line %d is %d bytes long (%s)", i, len(l.text), form))
+			}
+			if l.tag == "long-comment-line" {
+				lines = append(lines, l.text)
+			} else {
+				run(i, l, bad)
+			}
 		case failing && i == k:
 			run(i, g.badLine(0), true)
 		case i == endAt:
 			nontrivial = true
-			text := endKind
+			kind := endKind
+			skipFatal := false
+			if kind == "skip" {
+				// skip interrupts the background commands and waits for them: a status against its line
+				// makes the skip line FAIL; a status that would depend on timing: use stop instead
+				det, fatal, _, _ := s.waitAll(true)
+				if !det {
+					kind = "stop"
+				}
+				skipFatal = det && fatal
+			}
+			text := kind
 			if g.chance(40) {
 				text += " " + g.pick([]string{"done", "'why not'"})
 			}
@@ -960,13 +1065,21 @@ func genC01(rng *rand.Rand) *tcase {
 			}
 			lines = append(lines, text)
 			if alive {
-				recipe = append(recipe, fmt.Sprintf("line %d %s", i, endKind))
-				tags = append(tags, endKind)
+				bgEvent(kind)
+				if skipFatal {
+					for j := range s.bgs {
+						s.bgs[j].signalled = true
+					}
+					fails(i, "bad-skip-background-status")
+					break
+				}
+				recipe = append(recipe, fmt.Sprintf("line %d %s", i, kind))
+				tags = append(tags, kind)
 				alive = false
 				switch {
 				case failedYet:
 					verdict = "fail"
-				case endKind == "stop":
+				case kind == "stop":
 					verdict = "pass"
 				default:
 					verdict = "skip"
@@ -978,9 +1091,18 @@ func genC01(rng *rand.Rand) *tcase {
 			lines = append(lines, g.pick([]string{"", " ", "\t", "  # indented comment", " \t #x"}))
 		case g.fl.cont && failedYet && alive && g.chance(15):
 			run(i, g.badLine(0), true)
+		case g.bgMode && g.chance(45):
+			if l, ok := g.bgGoodLine(); ok {
+				run(i, l, false)
+			} else {
+				run(i, g.goodLine(0), false)
+			}
 		default:
 			run(i, g.goodLine(0), false)
 		}
+	}
+	if alive {
+		bgEvent("end")
 	}
 	if verdict == "" {
 		if failedYet {
